@@ -145,3 +145,9 @@ Proof. reflexivity. Qed.
 
 Lemma arch_untar_check_first : gen_check_first_untar = true.
 Proof. reflexivity. Qed.
+
+(** An entry is refused under the containment test ALONE, on the entry's own
+    joined name: no memo of earlier entries, no other disjunct or conjunct. *)
+Lemma arch_check_unconditional :
+  gen_check_cond_unzip = "!inDir(dir, name)" /\ gen_check_cond_untar = "!inDir(destDir, dest)".
+Proof. split; reflexivity. Qed.
